@@ -4,7 +4,7 @@
    link_full proves for ALL such runs is also confirmed here by evaluation. *)
 From Coq Require Import NArith List Bool Lia.
 From LV Require Import model.VecIndex model.Abft model.AbftRun spec.ElectionSpec
-  proofs.BftGraph proofs.BftRun proofs.BftMain proofs.BftProps proofs.LinkVals proofs.LinkDefs proofs.LinkFresh proofs.LinkRun.
+  proofs.BftGraph proofs.BftRun proofs.BftMain proofs.BftAccept proofs.BftProps proofs.LinkVals proofs.LinkDefs proofs.LinkFresh proofs.LinkRun.
 Import ListNotations.
 Local Open Scope N_scope.
 
@@ -30,3 +30,21 @@ Example ex2_refines : abft_run 200 (fun _ => 0) ex2_vals ex2_D = reference ex2_v
 Proof. exact (link_full 200 (fun _ => 0) ex2_vals ex2_D ex2_side ex2_valid). Qed.
 Example ex2_refines_by_evaluation : abft_run 200 (fun _ => 0) ex2_vals ex2_D = reference ex2_vals ex2_D.
 Proof. vm_compute. reflexivity. Qed.
+
+(* the hypotheses of C01 for the model: a reordering and an ancestor-closed subset of the run *)
+Definition ex2_map (D : list fev) : list fev :=
+  map (fun e => mkev (eid (fe e) + 1000) (ex2_perm (ecr (fe e))) (eseq (fe e)) (ffr e) (map (N.add 1000) (epar (fe e)))) D.
+Example ex2_reordered : incl (ex2_map ex_D') ex2_D /\ incl ex2_D (ex2_map ex_D') /\
+  NoDup (ids_of (ex2_map ex_D')) /\ parents_first (ex2_map ex_D').
+Proof.
+  split; [apply (incl_dec fev_eqb fev_eqb_eq); vm_compute; reflexivity|].
+  split; [apply (incl_dec fev_eqb fev_eqb_eq); vm_compute; reflexivity|].
+  split; [apply nodup_dec; vm_compute; reflexivity | apply parents_first_dec; vm_compute; reflexivity].
+Qed.
+Example ex2_subset : incl (ex2_map ex_Dsub) ex2_D /\ NoDup (ids_of (ex2_map ex_Dsub)) /\ parents_first (ex2_map ex_Dsub) /\
+  snd (abft_run 200 (fun _ => 0) ex2_vals (ex2_map ex_Dsub)) = [(1, 1000, [])].
+Proof.
+  split; [apply (incl_dec fev_eqb fev_eqb_eq); vm_compute; reflexivity|].
+  split; [apply nodup_dec; vm_compute; reflexivity|].
+  split; [apply parents_first_dec; vm_compute; reflexivity | vm_compute; reflexivity].
+Qed.
